@@ -182,7 +182,7 @@ def ramalhete(ctx):
             ok = bool(slot_loads) and bool(tickets) and not any(_reaches_without(fn, l, t, set(xchg)) for l in slot_loads for t in tickets)
             ctx.check(ok, rid, inst, "slot invalidated by exchange before the pop gives up on it", "pop() can give up on a slot (take the next ticket) without invalidating it", fn.where(xchg[0]), fn=fn)
         fa = flow.find(fn, {"k": "call", "field": "node::pop_idx", "op": "fetch_add"})
-        emp = [b for b, blk in fn.blocks.items() if "cond" in blk and "pop_idx" in fn.expr(blk["cond"]) and "push_idx" in fn.expr(blk["cond"])]
+        emp = [b for b, blk in fn.blocks.items() if "cond" in blk and flow.has_src(fn, blk["cond"], "load:pop_idx", "load:push_idx")]
         ok = bool(fa) and bool(emp)
         if ok:
             ok = all(emp[0] in fn.dominators().get(fn.pos()[x][0], ()) for x in fa)
